@@ -179,13 +179,22 @@ func getMinIntType(
 	)
 
 	// NormalizeBounds may hand back the caller's own pointers: adjust copies, not the schema.
-	if nExclusiveMin && nMin != nil {
-		adjusted := *nMin + 1.0
+	// The type is chosen for the smallest and the largest integer the bounds admit.
+	if nMin != nil {
+		adjusted := math.Ceil(*nMin)
+		if nExclusiveMin {
+			adjusted = math.Floor(*nMin) + 1.0
+		}
+
 		nMin = &adjusted
 	}
 
-	if nExclusiveMax && nMax != nil {
-		adjusted := *nMax - 1.0
+	if nMax != nil {
+		adjusted := math.Floor(*nMax)
+		if nExclusiveMax {
+			adjusted = math.Ceil(*nMax) - 1.0
+		}
+
 		nMax = &adjusted
 	}
 
